@@ -118,9 +118,54 @@ CONTRACTS = [
     using_contract("HasRounds.using[derived class; min+max]", {"min_desired_rounds": Int(), "max_desired_rounds": Int()}, [], INV_OK, "chain of using(): both limits given again"),
 ]
 
+# ---- salts ------------------------------------------------------------------------------------------------
+H64 = "./0123456789ABCDEFGHIJKLMNOPQRSTUVWXYZabcdefghijklmnopqrstuvwxyz"
+SALT_CLS = Obj(cls=(H, "HasSalt"), is_class=True, fields={"_salt_is_bytes": False, "salt_chars": H64, "min_salt_size": Int(lo=0), "max_salt_size": Opt(Int(lo=0)),
+                                                      "name": "handler", "_salt_unit": "chars"})
+IN_ALPHABET = "all(c in '" + H64 + "' for c in salt)"
+CONTRACTS.append(Contract(
+    "HasSalt._norm_salt", f"{H}::HasSalt._norm_salt",
+    params={"cls": SALT_CLS, "salt": Union(Str(), NoneT(), Int()), "relaxed": Bool()},
+    globals=dict(WARNS),
+    requires=[f"implies({eff('cls.max_salt_size')}, cls.max_salt_size >= cls.min_salt_size)"],
+    raises={"TypeError": "not isinstance(salt, str)",
+            "ValueError": f"isinstance(salt, str) and (not {IN_ALPHABET} or len(salt) < cls.min_salt_size or (not relaxed and {eff('cls.max_salt_size')} and len(salt) > cls.max_salt_size))"},
+    ensures=[
+        ("only salts over the alphabet are accepted", IN_ALPHABET),
+        ("never shorter than the minimum", "len(result) >= cls.min_salt_size"),
+        ("never longer than the maximum", f"implies({eff('cls.max_salt_size')}, len(result) <= cls.max_salt_size)"),
+        ("strict: the salt is returned unchanged", "implies(not relaxed, result == salt)"),
+        ("relaxed: an over-long salt is cut to the maximum, nothing else changes", f"implies(relaxed, result == (salt[0:cls.max_salt_size] if ({eff('cls.max_salt_size')} and len(salt) > cls.max_salt_size) else salt))"),
+    ],
+    descr="text salts over the hash64 alphabet, any size window",
+))
+
+# ---- truncation policy ---------------------------------------------------------------------------------
+for _val, _want in ((Bool(), None), (Const("false"), False), (Const("true"), True), (Const("no"), False), (Const("off"), False), (Const(0), False), (Const(1), True)):
+    CONTRACTS.append(Contract(
+        f"TruncateMixin.using[truncate_error={getattr(_val, 'value', 'bool')!r}]", f"{H}::TruncateMixin.using",
+        params={"cls": Obj(cls=(H, "TruncateMixin"), is_class=True, fields={"truncate_error": Bool(), "truncate_size": 8, "name": "handler"}), "truncate_error": _val, "kwds": Const(SDict())},
+        globals={"super.using": SStub(_fresh_subclass, "MinimalHandler.using", trusted="returns a fresh subclass")},
+        modifies=[],
+        ensures=[("the new hasher carries exactly the requested policy, whatever the parent's was",
+                  "result.truncate_error == truncate_error" if _want is None else f"result.truncate_error is {_want}"),
+                 ("the result is a fresh subclass", "result is not cls")],
+        descr="explicit policy given as bool / string / number on a parent with either policy",
+    ))
+CONTRACTS.append(Contract(
+    "TruncateMixin.using[truncate_error=None]", f"{H}::TruncateMixin.using",
+    params={"cls": Obj(cls=(H, "TruncateMixin"), is_class=True, fields={"truncate_error": Bool(), "truncate_size": 8, "name": "handler"}), "truncate_error": Const(None), "kwds": Const(SDict())},
+    globals={"super.using": SStub(_fresh_subclass, "MinimalHandler.using", trusted="returns a fresh subclass")},
+    modifies=[],
+    ensures=[("without an explicit policy the parent's is inherited", "result.truncate_error == cls.truncate_error")],
+))
+
 BOUNDED = [Bounded("c09", "harness/c09.py", descr="option grids incl. chains of using() and parent-after-child behaviour", timeout=900)]
 
 MUTANTS = [
+    ("TruncateMixin.using drops an explicit False", H, "            truncate_error = as_bool(truncate_error, param=\"truncate_error\")\n            if truncate_error is not None:\n                subcls.truncate_error = truncate_error", "            truncate_error = as_bool(truncate_error, param=\"truncate_error\")\n            if truncate_error:\n                subcls.truncate_error = truncate_error", "refute", "TruncateMixin"),
+    ("_norm_salt: relaxed truncation cuts one too many", H, "    def _truncate_salt(salt, mx):\n        return salt[:mx]", "    def _truncate_salt(salt, mx):\n        return salt[: mx - 1]", "refute", "_norm_salt"),
+    ("_norm_salt: minimum compared with <=", H, "        if mn and len(salt) < mn:\n", "        if mn and len(salt) <= mn:\n", "refute", "_norm_salt"),
     ("norm_integer: strict min check dropped", H, "        if relaxed:\n            warn(msg, exc.PasslibHashWarning)\n            value = min\n        else:\n            raise ValueError(msg)\n", "        warn(msg, exc.PasslibHashWarning)\n        value = min\n", "refute"),
     ("norm_integer: relaxed clamps to max+1", H, "            warn(msg, exc.PasslibHashWarning)\n            value = max\n", "            warn(msg, exc.PasslibHashWarning)\n            value = max + 1\n", "refute"),
     ("using: writes the parent class", H, "            subcls.max_desired_rounds = subcls._norm_rounds(\n                max_desired_rounds,", "            cls.max_desired_rounds = subcls.max_desired_rounds = subcls._norm_rounds(\n                max_desired_rounds,", "refute"),
